@@ -651,3 +651,10 @@ func init() {
 		mutant{Name: "map-element-addressable-again", Prop: "C12", File: "interp/typecheck.go", Old: "\t\t\tif c0.kind == indexExpr && isMap(c.typ) {\n\t\t\t\treturn n.cfgErrorf(\"invalid operation: cannot take address of a map element\")\n\t\t\t}\n", New: "\t\t\tif isMap(c.typ) {\n\t\t\t\tc0 = c\n\t\t\t\tfound = true\n\t\t\t\tcontinue\n\t\t\t}\n", Rule: "R12.38", Key: "typecheck.addressExpr/case:indexExpr/map-element-not-addressable"},
 	)
 }
+
+func init() {
+	addMutants(
+		// D146 reverted
+		mutant{Name: "constant-quotient-accepted-before-the-type-agreement", Prop: "C03", File: "interp/typecheck.go", Old: "\t\t\tif !c0.typ.untyped && !c1.typ.untyped && !c0.typ.equals(c1.typ) {\n\t\t\t\treturn n.cfgErrorf(\"invalid operation: mismatched types %s and %s\", c0.typ.id(), c1.typ.id())\n\t\t\t}\n\t\t\treturn nil\n", New: "\t\t\treturn nil\n", Rule: "R03.25", Key: "typecheck.binaryExpr/early-acceptance#1/operand-types-agree"},
+	)
+}
